@@ -431,5 +431,128 @@ example : odeRhs (siRegistry : Registry Rat) [.qty ⟨3, ⟨1/60, [0, 0, -1, 0, 
     [.qty ⟨2, ⟨1, concDims⟩⟩, .qty ⟨5, ⟨1, concDims⟩⟩, .qty ⟨7, ⟨1, concDims⟩⟩] 3 = .ok [-1/10, 1/10, 1/10] := by
   decide +kernel
 
-end ChemModel.C10
+/-! ## an `Expr`-valued rate constant: Arrhenius -/
 
+section Arrhenius
+variable [HasExp α]
+
+/-- **The unitless Arrhenius constant.** For `MassAction(Arrhenius([A, Ea_over_R]))` with `A` of dimension
+    `concentration^(1−n)/time` and `Ea_over_R`, `T` temperatures — all three in ANY units — the number the unit-aware system
+    evaluates in a registry is the SI constant `A.si·exp(−EaR.si/T.si)` divided by the registry's rate-constant unit: the
+    registry's temperature unit cancels inside the exponential.  Holds for every function `exp` (no analytic property is
+    used), every registry of non-zero base units. -/
+theorem arrhenius_constant_registry_independent (reg : Registry α) (hreg : RegistryWF reg) (A EaR T : PyVal α) (n : ℤ)
+    (hA : A.WF) (hAd : A.dims = rateConstDims n) (hE : EaR.WF) (hEd : EaR.dims = temperatureDims)
+    (hT : T.WF) (hTd : T.dims = temperatureDims) :
+    arrheniusDedim reg A EaR T = .ok (arrheniusEval A.si EaR.si T.si / regProd reg (rateConstDims n)) :=
+  arrheniusDedim_spec reg hreg A EaR T n hA hAd hE hEd hT hTd
+
+/-- **Its three arguments, and the refusal.** Each argument is converted with the registry unit of its own dimension
+    (success characterisation: any well-formed `A`, `Ea_over_R` and a temperature `T`); a `T` that is not a temperature is
+    refused with ValueError by the `to_arrays` conversion. -/
+theorem arrhenius_arguments (reg : Registry α) (hreg : RegistryWF reg) (A EaR T : PyVal α)
+    (hA : A.WF) (hE : EaR.WF) (hT : T.WF) :
+    (T.dims = temperatureDims → arrheniusArgs reg A EaR T =
+      .ok (A.si / regProd reg A.dims, EaR.si / regProd reg EaR.dims, T.si / regProd reg temperatureDims)) ∧
+    (T.dims ≠ temperatureDims → arrheniusArgs reg A EaR T = .error .valueError) :=
+  ⟨arrheniusArgs_spec reg hreg A EaR T hA hE hT, arrheniusArgs_refuses reg hreg A EaR T hA hE hT⟩
+
+/-- **Registry independence for Arrhenius systems.** A system all of whose rate constants are Arrhenius expressions, one
+    temperature for the whole system, constants / activation temperatures / temperature / concentrations in any units, any
+    registry: the unit-aware right-hand side is the plain right-hand side on the hand-computed SI constants
+    `A_i.si·exp(−EaR_i.si/T.si)` and SI concentrations, times `time_unit / conc_unit` (errors — spectator, index — coincide;
+    existence as in `unit_aware_system_exists`, since `plainRhs` is the same function). -/
+theorem registry_independence_arrhenius (reg : Registry α) (hreg : RegistryWF reg) (params : List (PyVal α × PyVal α))
+    (T : PyVal α) (rxns : List Rxn) (y : List (PyVal α)) (ns : ℕ) (hT : T.WF) (hTd : T.dims = temperatureDims)
+    (hp : List.Forall₂ (fun (p : PyVal α × PyVal α) (r : Rxn) => p.1.WF ∧ p.1.dims = rateConstDims r.order ∧
+      p.2.WF ∧ p.2.dims = temperatureDims) params rxns)
+    (hy : ∀ c ∈ y, c.WF ∧ c.dims = concDims) :
+    odeRhsArrhenius reg params T rxns y ns =
+      (plainRhs (arrheniusSI params T) rxns (y.map PyVal.si) ns).map
+        (List.map (· * (regProd reg timeDims / regProd reg concDims))) :=
+  odeRhsArrhenius_spec reg hreg params T rxns y ns hT hTd hp hy
+
+end Arrhenius
+
+/-- `A = 1e10 /M/s`, `Ea/R = 5000 K`, `T = 300 K` in the (cm, min, µmol, K) registry: the three unitless arguments -/
+example : arrheniusArgs exampleReg (.qty ⟨10000000000, ⟨1/1000, [3, 0, -1, 0, 0, 0, -1]⟩⟩) (.qty ⟨5000, ⟨1, temperatureDims⟩⟩)
+    (.qty ⟨300, ⟨1, temperatureDims⟩⟩) = .ok (600000000, 5000, 300) := by decide +kernel
+
+/-! ## `as_reactions`: when it succeeds -/
+
+/-- **Success characterisation of `Equilibrium.as_reactions`.** The call returns the pair `p` iff the standard concentration is
+    available (`units` given, or no unit-carrying rate), exactly one of `kf` / `kb` is given (`ratePair`), and BOTH resulting
+    constants pass the unit check of their own reaction; with none or both rates given it never succeeds. -/
+theorem as_reactions_succeeds_iff (K : PyVal α) (kf kb : Option (PyVal α)) (nf nb : ℤ) (units : Bool) (p : PyVal α × PyVal α) :
+    (asReactions K kf kb nf nb units = .ok p ↔
+      ∃ c0, standardConc kf kb units = .ok c0 ∧ ratePair K kf kb nf nb c0 = .ok p ∧
+        reactionCheck p.1 nf = .ok () ∧ reactionCheck p.2 nb = .ok ()) ∧
+    (kf.isSome = kb.isSome → asReactions K kf kb nf nb units ≠ .ok p) :=
+  ⟨asReactions_ok_iff K kf kb nf nb units p, fun h => asReactions_needs_exactly_one K kf kb nf nb units h p⟩
+
+/-! ## unitless constants in general; Eyring; Radiolytic -/
+
+/-- **Registry independence for any way of obtaining the constants.** If every unitless rate constant handed to the right-hand
+    side has the form `k_SI / (registry unit of concentration^(1−order)/time)` — as the plain, Arrhenius and Eyring constants and
+    the radiolytic rates (order 0) below do — the unit-aware right-hand side is the plain right-hand side on the SI constants
+    and SI concentrations, times `time_unit / conc_unit`; errors coincide, existence as in `unit_aware_system_exists`. -/
+theorem unitless_constants_registry_independent (reg : Registry α) (hreg : RegistryWF reg) (ksi : List α) (rxns : List Rxn)
+    (y : List (PyVal α)) (ns : ℕ) (hlen : ksi.length = rxns.length) (hy : ∀ c ∈ y, c.WF ∧ c.dims = concDims) :
+    odeRhsUnitless reg ((ksi.zip rxns).map fun kr => kr.1 / regProd reg (rateConstDims kr.2.order)) rxns y ns =
+      (plainRhs ksi rxns (y.map PyVal.si) ns).map (List.map (· * (regProd reg timeDims / regProd reg concDims))) :=
+  odeRhsUnitless_spec reg hreg ksi rxns y ns hlen hy
+
+section Eyring
+variable [HasExp α]
+
+/-- **The unitless Eyring constant.** `MassAction(Eyring([c0, c1, conc0]))` with `c0` per time per temperature (the dimension
+    `Eyring.__call__` needs — NOT what `Eyring.args_dimensionality` says, finding 6), `c1`, `T` temperatures, `conc0` a
+    concentration (default `1 molar`), all in any units: the number evaluated in a registry is the SI constant
+    `c0·T·exp(−c1/T)·conc0^(1−n)` over the registry's rate-constant unit of order `n`; holds for every function `exp`. -/
+theorem eyring_constant_registry_independent (reg : Registry α) (hreg : RegistryWF reg) (c0 c1 conc0 T : PyVal α) (n : ℤ)
+    (h0 : c0.WF) (h0d : c0.dims = eyringPrefDims) (h1 : c1.WF) (h1d : c1.dims = temperatureDims)
+    (h2 : conc0.WF) (h2d : conc0.dims = concDims) (hT : T.WF) (hTd : T.dims = temperatureDims) :
+    eyringDedim reg c0 c1 conc0 T n =
+      .ok (eyringEval c0.si c1.si conc0.si T.si n / regProd reg (rateConstDims n)) :=
+  eyringDedim_spec reg hreg c0 c1 conc0 T n h0 h0d h1 h1d h2 h2d hT hTd
+
+/-- its four arguments (success characterisation) and the refusal of a non-temperature `T` (ValueError) -/
+theorem eyring_arguments (reg : Registry α) (hreg : RegistryWF reg) (c0 c1 conc0 T : PyVal α)
+    (h0 : c0.WF) (h1 : c1.WF) (h2 : conc0.WF) (hT : T.WF) :
+    (T.dims = temperatureDims → eyringArgs reg c0 c1 conc0 T = .ok (c0.si / regProd reg c0.dims, c1.si / regProd reg c1.dims,
+      conc0.si / regProd reg conc0.dims, T.si / regProd reg temperatureDims)) ∧
+    (T.dims ≠ temperatureDims → eyringArgs reg c0 c1 conc0 T = .error .valueError) :=
+  ⟨eyringArgs_spec reg hreg c0 c1 conc0 T h0 h1 h2 hT, eyringArgs_refuses reg hreg c0 c1 conc0 T h0 h1 h2 hT⟩
+
+end Eyring
+
+/-- **The unitless radiolytic rate.** `Radiolytic([g])` with yield `g` (amount/energy), `density` and `doserate` in any units:
+    the production rate evaluated in a registry is `g·ρ·D` in SI over the registry's `concentration/time` (= its rate-constant
+    unit of order 0): a radiolytic reaction is a zero-order reaction with that constant (its reactants count in the net
+    stoichiometry only, like inactive ones). -/
+theorem radiolytic_rate_registry_independent (reg : Registry α) (hreg : RegistryWF reg) (g rho D : PyVal α)
+    (hg : g.WF) (hgd : g.dims = yieldDims) (hr : rho.WF) (hrd : rho.dims = densityDims) (hD : D.WF) (hDd : D.dims = doserateDims) :
+    radiolyticDedim reg g rho D = .ok (radiolyticEval g.si rho.si D.si / regProd reg (rateConstDims 0)) :=
+  radiolyticDedim_spec reg hreg g rho D hg hgd hr hrd hD hDd
+
+/-- its three arguments (success characterisation) and the refusal of a wrongly-dimensioned density / dose rate (ValueError) -/
+theorem radiolytic_arguments (reg : Registry α) (hreg : RegistryWF reg) (g rho D : PyVal α) (hg : g.WF) (hr : rho.WF) (hD : D.WF) :
+    (rho.dims = densityDims → D.dims = doserateDims → radiolyticArgs reg g rho D =
+      .ok (g.si / regProd reg g.dims, rho.si / regProd reg densityDims, D.si / regProd reg doserateDims)) ∧
+    (rho.dims ≠ densityDims ∨ (rho.dims = densityDims ∧ D.dims ≠ doserateDims) →
+      radiolyticArgs reg g rho D = .error .valueError) :=
+  ⟨fun h1 h2 => radiolyticArgs_spec reg hreg g rho D hg hr h1 hD h2, radiolyticArgs_refuses reg hreg g rho D hg hr hD⟩
+
+/-- Eyring: `c0 = 1e8 /(K s)`, `c1 = 5000 K`, `conc0 = 1 M`, `T = 300 K` in the (cm, min, µmol, K) registry -/
+example : eyringArgs exampleReg (.qty ⟨100000000, ⟨1, [0, 0, -1, 0, -1, 0, 0]⟩⟩) (.qty ⟨5000, ⟨1, temperatureDims⟩⟩)
+    (.qty ⟨1, ⟨1000, concDims⟩⟩) (.qty ⟨300, ⟨1, temperatureDims⟩⟩) = .ok (6000000000, 5000, 1000, 300) := by decide +kernel
+
+/-- Radiolytic: `g = 2.1e-7 mol/J`, `ρ = 998 kg/m³`, `D = 9 Gy/min` in the same registry -/
+example : radiolyticArgs exampleReg (.qty ⟨21, ⟨1/100000000, yieldDims⟩⟩) (.qty ⟨998, ⟨1, densityDims⟩⟩)
+    (.qty ⟨9, ⟨1/60, doserateDims⟩⟩) = .ok (7/1200000000, 499/500000, 324000000) := by decide +kernel
+
+/-- a radiolytic reaction `A -> B` as a zero-order reaction whose reactant counts in the net stoichiometry only -/
+example : odeRhsUnitless exampleReg [(3 : Rat)] [{ reac := [], prod := [(1, 1)], inactReac := [(0, 1)] }]
+    [.qty ⟨2, ⟨1, concDims⟩⟩, .qty ⟨5, ⟨1, concDims⟩⟩] 2 = .ok [-3, 3] := by decide +kernel
+
+end ChemModel.C10
